@@ -163,6 +163,8 @@ def _limited(node, patch_):
         raise Exception("Array len member not found: %s %s" % (node.name, patch_))
 
     mem = node.members[i]
+    if not mem.size or mem.bound:
+        raise Exception("Only a fixed array can be made limited: %s %s" % (node.name, patch_))
     mem.bound = len_array
     mem.optional = False
     return node
